@@ -66,6 +66,7 @@ type VC struct {
 	provisionalLoads map[string]bool // field arrays whose entry value stands in for an in-loop re-read (loopModifies)
 	curLoop          *loopInfo
 	loopGhostLocals  map[string]bool // ghost locals assigned by hooks inside the loop being entered
+	hookFired      map[string]bool // call-site hooks / site assertions that matched at least one call on some path
 	entryMeasure   []Term // the function's recursion measure in its entry state (term.go)
 	recursiveCalls int    // call sites found to be recursive (same strongly connected component)
 	callSeq, curCallSeq int // numbering of contract applications (names of per-call unknowns)
@@ -96,7 +97,7 @@ type VC struct {
 
 func newVC(w *World, specs *Specs, tt *TypeTable) *VC {
 	return &VC{w: w, specs: specs, tt: tt, d: newDecls(), arrays: map[string]Sort{}, concTypes: map[int]types.Type{}, ifaceTypes: map[int]*types.Interface{},
-		funcIDs: map[string]int{}, refArrays: map[string]bool{}, usedTrusted: map[string]bool{}, maxPaths: 400, pureAxiomsDone: map[string]bool{}}
+		funcIDs: map[string]int{}, refArrays: map[string]bool{}, usedTrusted: map[string]bool{}, maxPaths: 400, pureAxiomsDone: map[string]bool{}, hookFired: map[string]bool{}}
 }
 
 func (vc *VC) typeID(t types.Type) int {
